@@ -19,7 +19,7 @@ ASSUMPTIONS = ['overwriting Group.pka_value of the AVR groups is a faithful way 
 
 GRIDS = ((0.0, 14.0, 1.0), (0.0, 14.0, 0.1), (-2.0, 16.0, 0.5), (3.0, 9.0, 0.25))
 PI_WINDOWS = ((0.0, 14.0), (2.0, 12.0), (-5.0, 20.0))
-PRECISIONS = (1e-4, 1e-2)
+PRECISIONS = (1e-4, 1e-2, 2.5e-3, 4e-5, 2e-4, 0.3, 1e-7)   # the stated precision need not be a power of ten
 REAL_INPUTS = [('file', '3SGB'), ('file', '1HPX'), ('file', '4DFR'), ('file', '1FTJ'),
                ('pair', 'ASP', 'LYS', 2.8, 'mid'), ('pair', 'ACT', 'MAM', 2.9, 'exposed'), ('pair', 'CA', 'GLU', 2.6, 'mid'),
                ('pair', 'PYR', 'GLU', 2.8, 'deep'), ('pair', 'MPO', 'ARG', 3.0, 'exposed'), ('pair', 'MSH', 'HIS', 3.2, 'exposed'),
